@@ -35,7 +35,7 @@ var reUnexpected = regexp.MustCompile(`received unexpected (\S+) message`)
 // classify renders what an API call returned in the model's vocabulary.
 func classify(op string, res *wamp.Result, err error) []any {
 	if err == nil {
-		if op == "call" {
+		if op == "call" || op == "callprog" {
 			return []any{"result", canonList(res.Arguments), canonDict(res.ArgumentsKw)}
 		}
 		return []any{"ok"}
@@ -112,6 +112,17 @@ func (w *world) attribute(op, name string, id wamp.ID) {
 			return
 		}
 	}
+}
+
+func (w *world) attributed(id wamp.ID) bool {
+	w.mu.Lock()
+	defer w.mu.Unlock()
+	for _, r := range w.req {
+		if r == uint64(id) {
+			return true
+		}
+	}
+	return false
 }
 
 func (w *world) resolve(m []any) []any {
@@ -282,7 +293,10 @@ func runScenario(t *testing.T, sc Scenario) (res Result) {
 						w.attribute("publish_noack", string(x.Topic), x.Request)
 					}
 				case *wamp.Call:
-					w.attribute("call", string(x.Procedure), x.Request)
+					// (later chunks of a progressive call repeat the request id)
+					if !w.attributed(x.Request) {
+						w.attribute("call", string(x.Procedure), x.Request)
+					}
 				case *wamp.Goodbye:
 					if cfg.GoodbyeReply >= 0 {
 						d := cfg.GoodbyeReply
@@ -327,6 +341,13 @@ func runScenario(t *testing.T, sc Scenario) (res Result) {
 			return func(ctx context.Context, inv *wamp.Invocation) client.InvokeResult {
 				prog, _ := inv.Details[wamp.OptProgress].(bool)
 				w.obs("inv", int64(inv.Request), int64(inv.Registration), canonList(inv.Arguments), canonDict(inv.ArgumentsKw), prog)
+				for k := 0; k < b.Progress; k++ {
+					if err := c.SendProgress(ctx, wamp.List{int64(k)}, nil); err != nil {
+						w.obs("sp", int64(inv.Request), "refused")
+					} else {
+						w.obs("sp", int64(inv.Request), "ok")
+					}
+				}
 				if b.WaitCtx {
 					tm := time.NewTimer(time.Duration(b.Delay) * time.Millisecond)
 					defer tm.Stop()
@@ -353,10 +374,14 @@ func runScenario(t *testing.T, sc Scenario) (res Result) {
 			w.mu.Lock()
 			w.names[g] = st.Name
 			w.startedG[g] = true
-			w.pending[st.Op] = append(w.pending[st.Op], g)
+			opKey := st.Op
+			if opKey == "callprog" {
+				opKey = "call"
+			}
+			w.pending[opKey] = append(w.pending[opKey], g)
 			w.mu.Unlock()
 			ctx := context.Background()
-			if st.Op == "call" {
+			if st.Op == "call" || st.Op == "callprog" {
 				// a later `cancel` stimulus for g of kind deadline = the ctx's own deadline
 				var cf context.CancelFunc
 				ctx, cf = context.WithCancel(ctx)
@@ -404,6 +429,39 @@ func runScenario(t *testing.T, sc Scenario) (res Result) {
 							}
 						}
 						result, err = c.Call(ctx, st.Name, nil, nil, nil, pcb)
+					case "callprog":
+						var pcb client.ProgressHandler
+						if st.Prog {
+							pcb = func(pr *wamp.Result) {
+								w.obs("progress", g, canonList(pr.Arguments), canonDict(pr.ArgumentsKw))
+								time.Sleep(time.Duration(cfg.ProgDelay) * time.Millisecond)
+							}
+						}
+						calls := 0
+						sendProg := func(ctx context.Context) (wamp.Dict, wamp.List, wamp.Dict, error) {
+							k := calls
+							calls++
+							if k == 0 {
+								return wamp.Dict{wamp.OptProgress: len(st.Script) > 0}, wamp.List{int64(0)}, nil, nil
+							}
+							if k > len(st.Script) {
+								return wamp.Dict{wamp.OptProgress: false}, wamp.List{int64(k)}, nil, nil
+							}
+							step := st.Script[k-1]
+							if step.K == "ctx" {
+								<-ctx.Done()
+								return nil, nil, nil, ctx.Err()
+							}
+							time.Sleep(time.Duration(step.D) * time.Millisecond)
+							switch step.K {
+							case "chunk":
+								return wamp.Dict{wamp.OptProgress: true}, wamp.List{int64(k)}, nil, nil
+							case "err":
+								return nil, nil, nil, errors.New("sendprog failed")
+							}
+							return wamp.Dict{wamp.OptProgress: false}, wamp.List{int64(k)}, nil, nil
+						}
+						result, err = c.CallProgressive(ctx, st.Name, sendProg, pcb)
 					default:
 						err = fmt.Errorf("unknown op %s", st.Op)
 					}
@@ -422,10 +480,10 @@ func runScenario(t *testing.T, sc Scenario) (res Result) {
 				w.obs("ret", append([]any{g}, r...)...)
 				w.mu.Lock()
 				w.retd[g] = true
-				ps := w.pending[st.Op]
+				ps := w.pending[opKey]
 				for i, x := range ps {
 					if x == g {
-						w.pending[st.Op] = append(append([]int{}, ps[:i]...), ps[i+1:]...)
+						w.pending[opKey] = append(append([]int{}, ps[:i]...), ps[i+1:]...)
 						break
 					}
 				}
